@@ -181,5 +181,9 @@ func ValidatePrime(p *saferith.Nat) error {
 	if !pMinus1Div2.Big().ProbablyPrime(1) {
 		return ErrNotSafePrime
 	}
+	// (p-1)/2 prime does not make p prime: p has to be tested as well
+	if !p.Big().ProbablyPrime(1) {
+		return ErrNotSafePrime
+	}
 	return nil
 }
